@@ -21,6 +21,9 @@ Monitors (written against the property text, never against the model):
                                                   re-reading the socket bytes with a second real connection
                                                   yields a prefix of the sent messages
   * no exception ever escapes `__processConnection`
+  * family "slow" (virtual clock): a frame much larger than the recv size arrives in fragments spaced by a
+    fraction of the time-out, the transfer taking a multiple of it (quiet / busy write side) -> no disconnect,
+    all frames delivered once in order; a silent connection (no bytes for longer than the time-out) disconnects
   * family "reconnect" (monitor only, no model): ONE TcpConnection object used for two successive connections;
     peer 1 writes k frames + a partial frame and closes (data and EOF in one read pass / data, EAGAIN, EOF in the
     next pass / EOF alone); `onDisconnected` calls `connect()` at once (in progress / immediate / refused);
@@ -778,6 +781,94 @@ def gen_mixed(env, rng, n):
         yield c
 
 
+SLOW_KINDS = ["slow-quiet", "slow-busy", "silent-send", "silent-write-event", "silent-late-data", "silent-boundary"]
+
+
+def gen_slow(env, rng, n):
+    """virtual clock: a frame much larger than the recv size arrives in fragments spaced by a fraction of the
+    time-out, the whole transfer taking a multiple of the time-out (small frames before / after, quiet or busy
+    write side); and genuinely silent connections (no bytes for longer than the time-out)"""
+    t = env.table
+    for j in range(n):
+        kind = SLOW_KINDS[j % len(SLOW_KINDS)]
+        T = rng.choice([5, 10, 50])
+        recvbuf = rng.choice([64, 256])
+        c = new_case(env, kind, timeout=T, recvbuf=recvbuf)
+        before = [t.vid(gen_value(rng)) for _ in range(rng.randrange(0, 3))]
+        after = [t.vid(gen_value(rng)) for _ in range(rng.randrange(0, 3))]
+        if kind.startswith("slow"):
+            big = t.vid(rng.randbytes(rng.randrange(20, 60) * recvbuf + rng.randrange(0, recvbuf)))
+            ids = before + [big] + after
+        else:
+            ids = before + after or [t.vid(gen_value(rng))]
+        for i in ids:
+            add_msg(env, c, i)
+        stream = b"".join(t.frame(i) for i in ids)
+        chunks, pos = [], 0
+        while pos < len(stream):
+            k = recvbuf if rng.random() < 0.8 else rng.randrange(1, recvbuf + 1)
+            chunks.append(stream[pos:pos + k])
+            pos += k
+        groups, i = [], 0
+        while i < len(chunks):
+            g = rng.choice([1, 1, 2, 3])
+            groups.append(chunks[i:i + g])
+            i += g
+        now = 0
+        if kind.startswith("slow"):
+            gaps = [rng.choice([1, max(1, T // 2), T - 1, T]) for _ in groups]
+            while sum(gaps) < 3 * T:                       # the transfer takes a multiple of the time-out
+                gaps[rng.randrange(len(gaps))] = T
+            for grp, gap in zip(groups, gaps):
+                if kind == "slow-busy" and rng.random() < 0.6:
+                    d = rng.randrange(0, gap + 1)
+                    script = [x for x in gen_send_script(rng) if x not in ("e", -1)]
+                    if rng.random() < 0.5:
+                        m = t.vid(gen_value(rng))
+                        add_msg(env, c, m)
+                        c["evs"].append({"k": "send", "m": m, "now": now + d, "s": script})
+                    else:
+                        c["evs"].append(read_ev(now + d, [], rd=False, wr=True, sends=script))
+                now += gap
+                wr = kind == "slow-busy" and rng.random() < 0.4
+                c["evs"].append(read_ev(now, grp, wr=wr,
+                                        sends=[x for x in gen_send_script(rng) if x not in ("e", -1)] if wr else ()))
+            c["expect"] = {"mon": "slow", "sent": ids, "timeout": T, "span": now}
+        else:
+            # some complete traffic (gaps within the time-out), possibly ending inside a frame, then silence
+            cutg = rng.randrange(1, len(groups) + 1)
+            fed = b""
+            for grp in groups[:cutg]:
+                now += rng.choice([1, T - 1, T])
+                c["evs"].append(read_ev(now, grp))
+                fed += b"".join(grp)
+            done, p = [], 0
+            for i in ids:
+                p += len(t.frame(i))
+                if p <= len(fed):
+                    done.append(i)
+            rest = groups[cutg:]
+            if kind == "silent-boundary":
+                now += T                                    # exactly the time-out: still alive
+                c["evs"].append(read_ev(now, rest[0]) if rest else read_ev(now, [], rd=False, wr=True, sends=[5]))
+                for grp in rest[1:]:
+                    now += rng.choice([1, T])
+                    c["evs"].append(read_ev(now, grp))
+                c["expect"] = {"mon": "slow", "sent": ids, "timeout": T, "span": now}
+            else:
+                now += T + rng.choice([1, 1, 2, T, 10 * T])
+                if kind == "silent-send":
+                    m = t.vid(gen_value(rng))
+                    add_msg(env, c, m)
+                    c["evs"].append({"k": "send", "m": m, "now": now, "s": [10 ** 6]})
+                elif kind == "silent-write-event":
+                    c["evs"].append(read_ev(now, [], rd=False, wr=True, sends=[10 ** 6]))
+                else:
+                    c["evs"].append(read_ev(now, rest[0] if rest else []))
+                c["expect"] = {"mon": "silent", "done": done, "timeout": T}
+        yield c
+
+
 def gen_directed(env):
     """one case on each side of every guard of the mirrored code (systematic, before the random stream)"""
     t = env.table
@@ -935,6 +1026,27 @@ def monitor(env, case, real, rng=None):
             v.append({"signature": "tcp_connection.e2e:message-lost",
                       "what": "write buffer empty, connection up, but reading the wire back gives %d of %d messages"
                               % (len(r2["delivered"]), len(ex["sent"]))})
+    elif mon == "slow":
+        # bytes kept arriving, never more than `timeout` apart: no disconnect, everything delivered once, in order
+        if real["state"] != 2 or real["ndisc"] != 0:
+            v.append({"signature": "tcp_connection.timeout:disconnect-while-bytes-arriving",
+                      "what": "time-out %d, bytes arrived over %d time units with no gap above the time-out, yet the connection is %s "
+                              "(onDisconnected x%d) after delivering %d of %d messages"
+                              % (ex["timeout"], ex["span"], STATE_NAMES.get(real["state"]), real["ndisc"],
+                                 len(real["delivered"]), len(ex["sent"]))})
+        if real["delivered"] != ex["sent"][:len(real["delivered"])] or \
+                (real["state"] == 2 and real["delivered"] != ex["sent"]):
+            v.append({"signature": "tcp_connection.timeout:delivered-differs",
+                      "what": "slow valid stream: delivered ids %r, sent ids %r" % (real["delivered"][:8], ex["sent"][:8])})
+    elif mon == "silent":
+        if real["state"] != 0 or real["ndisc"] != 1:
+            v.append({"signature": "tcp_connection.timeout:silent-connection-not-disconnected",
+                      "what": "no bytes for longer than the time-out %d, then an event: connection is %s, onDisconnected x%d"
+                              % (ex["timeout"], STATE_NAMES.get(real["state"]), real["ndisc"])})
+        if real["delivered"] != ex["done"]:
+            v.append({"signature": "tcp_connection.timeout:delivered-differs",
+                      "what": "silent connection: delivered ids %r, frames completed before the silence %r"
+                              % (real["delivered"][:8], ex["done"][:8])})
     elif mon == "mixed":
         # whatever happened: delivered messages are, in order, messages of the peer's stream prefix
         # (until the first corrupted frame this is exact; None is never delivered)
@@ -1247,7 +1359,8 @@ def all_cases(ctx, env):
               gen_corrupt(env, rng, ctx.scale(640, 12800)),
               gen_writer(env, rng, ctx.scale(300, 6000), benign=True),
               gen_writer(env, rng, ctx.scale(200, 4000), benign=False),
-              gen_mixed(env, rng, ctx.scale(1500, 40000))):
+              gen_mixed(env, rng, ctx.scale(1500, 40000)),
+              gen_slow(env, ctx.rng("tcp_framing/slow"), ctx.scale(120, 3000))):
         for c in g:
             yield c
 
@@ -1322,6 +1435,8 @@ def run(ctx):
             if nontrivial(c):
                 seen.add(case_hash(c))
             ex = c.get("expect", {})
+            if c["kind"] in SLOW_KINDS:
+                cov["timeout:" + c["kind"]] = cov.get("timeout:" + c["kind"], 0) + 1
             if ex.get("mon") == "corrupt":
                 cov["class:" + ex["class"]] = cov.get("class:" + ex["class"], 0) + 1
             for e in c["evs"]:
@@ -1375,7 +1490,8 @@ def run(ctx):
                   "recv:data", "recv:eof", "recv:error", "recv:eagain", "so_error", "class:negative",
                   "class:undecodable", "class:incomplete", "class:decodes", "ev:send", "ev:poll", "ev:disc", "ev:conn",
                   "payload>8192", "disconnects"] + ["reconnect:" + x for x in RECONNECT_PATTERNS + RECONNECT_MODES] + \
-                 ["reconnect:old-data-fully-read", "reconnect:delivered-on-new-connection"]
+                 ["reconnect:old-data-fully-read", "reconnect:delivered-on-new-connection"] + \
+                 ["timeout:" + x for x in SLOW_KINDS]
         missing = [f for f in floors if not cov.get(f)]
         if missing:
             res["inconclusive"] = "coverage floor missed: " + ", ".join(missing)
@@ -1392,7 +1508,7 @@ def search(ctx, unproved):
             rng = ctx.rng("tcp_framing/search/%d" % salt)
             cases = gen_directed(env) + list(gen_corrupt(env, rng, 320)) + list(gen_reader_random(env, rng, 100)) + \
                 list(gen_writer(env, rng, 100, True)) + list(gen_writer(env, rng, 60, False)) + \
-                list(gen_reader_exhaustive(env, rng, 1, 8))
+                list(gen_reader_exhaustive(env, rng, 1, 8)) + list(gen_slow(env, rng, 60))
             for c in cases:
                 r = env.run_real(c)
                 for x in monitor(env, c, r, rng):
